@@ -1121,7 +1121,7 @@ func TestCheck(t *testing.T) {
 	exec := shard * 10000
 
 	// (1) concurrent runs
-	nConc := r.N(48, 480)
+	nConc := r.N(48, 4000)
 	for i := 0; i < nConc; i++ {
 		exec++
 		cfg := config{Exec: exec, Dispatchers: 1 + rng.Intn(8), Slots: 1 + rng.Intn(8), MaxRequests: 1 + rng.Intn(8), Merge: 1 + rng.Intn(3),
